@@ -174,6 +174,16 @@ func VerifRegisterHost(p *VipnodePool, ctx context.Context, nodeID string, req C
 }
 
 func VerifConnect(p *VipnodePool, svc *VerifHost, nodeID string, full bool, payout string) (*ConnectResponse, error) {
+	return VerifConnectSvc(p, svc, nodeID, full, payout)
+}
+
+// VerifConn is a host connection stub that also reports whether it has ended (as jsonrpc2.Remote does).
+type VerifConn struct{ VerifHost }
+
+func (c *VerifConn) Closed() bool { return c.VerifHost.Closed }
+
+// VerifConnectSvc is VerifConnect on an arbitrary connection object.
+func VerifConnectSvc(p *VipnodePool, svc jsonrpc2.Service, nodeID string, full bool, payout string) (*ConnectResponse, error) {
 	req := ConnectRequest{NodeInfo: ethnode.UserAgent{Kind: ethnode.Geth, IsFullNode: full}, Payout: payout}
 	if full && verifapi.Param("legacy_host", 0) == 1 {
 		err := VerifRegisterHost(p, jsonrpc2.VerifCtxWithService(context.Background(), svc), nodeID, req)
